@@ -138,7 +138,9 @@ func genDigits(t *rapid.T, n int) *big.Int {
 func genCoef(t *rapid.T) *big.Int { return new(big.Int).Set(genCoefShared(t)) }
 
 func genCoefShared(t *rapid.T) *big.Int {
-	switch ir(t, 0, 15, "coefKind") {
+	switch ir(t, 0, 16, "coefKind") {
+	case 9:
+		return genWordStructured(t)
 	case 0:
 		return new(big.Int).Sub(ref.Cmax, bi(int64(ir(t, 0, 3, "cmaxOff"))))
 	case 1:
@@ -173,6 +175,44 @@ func genCoefShared(t *rapid.T) *big.Int {
 	}
 	n := ir(t, 1, 35, "len")
 	return capCoef(genDigits(t, n))
+}
+
+// genWordStructured draws a two-word coefficient hi*2^64 + lo whose words are individually remarkable: a low word
+// that is zero, tiny, or just below 2^64 under a non-zero high word (code that looks at one word only — a dropped
+// `hi != 0` test, a carry that is not propagated — sees a harmless small number), and high words 1, 2, 3, a few
+// bits, 2^32, 2^48 or arbitrary.
+func genWordStructured(t *rapid.T) *big.Int {
+	var hi, lo uint64
+	switch ir(t, 0, 5, "hiKind") {
+	case 0:
+		hi = 1
+	case 1:
+		hi = uint64(ir(t, 2, 9, "hiSmall"))
+	case 2:
+		hi = 1 << uint(ir(t, 1, 48, "hiBit"))
+	case 3:
+		hi = 1<<32 + uint64(ir(t, -1, 1, "hiOff"))
+	default:
+		hi = u64(t, "hi") >> 15
+	}
+	switch ir(t, 0, 6, "loKind") {
+	case 0:
+		lo = 0
+	case 1:
+		lo = uint64(ir(t, 0, 9, "loTiny"))
+	case 2:
+		lo = uint64(ir(t, 0, 7000, "loSmall"))
+	case 3:
+		lo = ^uint64(0) - uint64(ir(t, 0, 9, "loTop"))
+	case 4:
+		lo = 1 << uint(ir(t, 0, 63, "loBit"))
+	default:
+		lo = u64(t, "lo")
+	}
+	c := new(big.Int).SetUint64(hi)
+	c.Lsh(c, 64)
+	c.Or(c, new(big.Int).SetUint64(lo))
+	return capCoef(c)
 }
 
 // genExp draws an exponent in [Emin, Emax].
